@@ -258,7 +258,8 @@ MonC07(S) ==
         \* every dump request is preceded by the checksum announcement (an attempt whose dump request never arrived owes nothing)
         (IF \A j \in 1..Len(cmds) : cmds[j].kind = "dump" =>
                \E i \in 1..(j - 1) : cmds[i].kind = "query" /\ Contains(LowerSeq(cmds[i].sql), WChecksum) /\ Take(LowerSeq(cmds[i].sql), 3) = WSet
-         THEN {} ELSE {Z("C07.checksum-first", S, "no SET @master_binlog_checksum before the dump request", a, 0)}) \cup
+                                     /\ cmds[i].conn = cmds[j].conn      \* the announcement is per connection: on the one that asks for the dump
+         THEN {} ELSE {Z("C07.checksum-first", S, "no SET @master_binlog_checksum before the dump request (on the connection that sends it)", a, 0)}) \cup
         UNION {
           IF cmds[j].kind # "dump" THEN {}
           ELSE (IF cmds[j].flags % 2 = 0 THEN {} ELSE {Z("C07.blocking", S, "BINLOG_DUMP_NON_BLOCK is set", a, cmds[j].flags)}) \cup
